@@ -459,7 +459,7 @@ class PhyBo(Wordlist):
         taxa, paps = self._existing_taxa_and_paps(pap, missing_data)
 
         # get list of taxa where pap is 1
-        presents = [self.taxa[i] for i in range(len(self.taxa)) if pap[i] in (1, -1)]
+        presents = [self.taxa[i] for i in range(len(self.taxa)) if pap[i] >= 1]
 
         # get the subtree containing all taxa that have positive paps
         tree = self.tree.lowestCommonAncestor(
